@@ -5,7 +5,7 @@ CONSTANTS
   Vs = {2}
   TVs = {4, 5, 6}
   Widths = {1, 2, 3, 30}
-  MaxItersS = {0, 1, 2, 3}
+  MaxItersS = {0, 1, 2, 3, 4}
   NoEos = NoEos
 INVARIANT ScoreIsChain
 INVARIANT StopsAtFirstEos
